@@ -177,6 +177,50 @@ func parseIP(b []byte, outer bool) (ipView, bool) {
 	return v, false
 }
 
+func sumWords(b []byte, acc uint32) uint32 {
+	for i := 0; i+1 < len(b); i += 2 {
+		acc += uint32(b[i])<<8 | uint32(b[i+1])
+	}
+	if len(b)%2 == 1 {
+		acc += uint32(b[len(b)-1]) << 8
+	}
+	return acc
+}
+
+func foldSum(acc uint32) uint16 {
+	for acc>>16 != 0 {
+		acc = acc&0xffff + acc>>16
+	}
+	return ^uint16(acc)
+}
+
+// l4WellFormed verifies the transport checksum (with pseudo header where the protocol has one) and the TCP data offset.
+func l4WellFormed(ip ipView) bool {
+	l4 := ip.payload
+	pseudo := func(proto uint8) uint32 {
+		acc := sumWords(ip.src.AsSlice(), 0)
+		acc = sumWords(ip.dst.AsSlice(), acc)
+		acc += uint32(proto) + uint32(len(l4)&0xffff) + uint32(len(l4)>>16)
+		return acc
+	}
+	switch ip.proto {
+	case 1:
+		return len(l4) >= 8 && foldSum(sumWords(l4, 0)) == 0
+	case 58:
+		return len(l4) >= 8 && foldSum(sumWords(l4, pseudo(58))) == 0
+	case 6:
+		if len(l4) < 20 {
+			return false
+		}
+		doff := int(l4[12]>>4) * 4
+		if doff < 20 || doff > len(l4) {
+			return false
+		}
+		return foldSum(sumWords(l4, pseudo(6))) == 0
+	}
+	return true
+}
+
 func (f *Flow) sent(ttl int, at int64) *Probe {
 	for _, p := range f.Probes {
 		if p.TTL == ttl && p.Tick < at {
@@ -209,6 +253,12 @@ func Ref(f *Flow, b []byte, at int64) Outcome {
 		return rej("non-first fragment")
 	}
 	o := refInner(f, ip, at)
+	if o.Kind == Accept && !l4WellFormed(ip) {
+		// a reply whose transport header is inconsistent (checksum, data offset) is not something a real
+		// device sends; whether the tool uses it is not decided by the property
+		o.Kind = Maybe
+		o.Why += " (transport header not well-formed)"
+	}
 	if o.Kind == Accept && (!ip.wellForm || ip.dst != f.Local) {
 		// outer destination / outer length+checksum consistency are not identifying fields: undecided
 		o.Kind = Maybe
